@@ -3,12 +3,30 @@
     TNSem).  The model (Qib.TN.TNModel) is a hand port of symbolic_network.py WITH the proposed
     repairs (merge: every deleted open axis once; is_consistent: exact leg count) and is tied
     to /repo by the exact correspondence run of checks/C08.py on every run. *)
-From Qib Require Import TN.TNSem Base.Inst.
+From Qib Require Import TN.TNSem TN.TNConsistentConv Base.Inst.
 
 (** 1. the invariant implies the library's own check *)
 Theorem C08_invariant_implies_is_consistent : forall n, WF n -> is_consistent n = true.
 Proof. exact WF_is_consistent. Qed.
 Print Assumptions C08_invariant_implies_is_consistent.
+
+(** 1'. ... and conversely: every network the library's own check accepts satisfies the invariant,
+    so "from any consistent starting point" below means exactly "from any network for which
+    is_consistent() returns True".  [Rep] is what a Python object of these classes cannot
+    violate and is_consistent therefore never inspects: a dict holds each key once, and
+    len(shape) = len(bids) for every tensor (enforced by SymbolicTensor.__init__ and kept by
+    every method that writes shape/bids). *)
+Theorem C08_is_consistent_implies_invariant : forall n, Rep n -> is_consistent n = true -> WF n.
+Proof. exact is_consistent_WF. Qed.
+Print Assumptions C08_is_consistent_implies_invariant.
+
+Theorem C08_invariant_is_exactly_is_consistent : forall n, WF n <-> (Rep n /\ is_consistent n = true).
+Proof.
+  intros n. split.
+  - intros W. split; [apply WF_Rep; exact W | apply WF_is_consistent; exact W].
+  - intros [R C]. apply is_consistent_WF; assumption.
+Qed.
+Print Assumptions C08_invariant_is_exactly_is_consistent.
 
 (** 2. every accepted operation preserves the invariant.  Guards (none is validated by the
     code): the virtual tensor -1 is not renamed; the transposition is a permutation of all
@@ -44,6 +62,52 @@ Proof.
   intros ops n k W G. split; [apply sequence_WF; assumption | apply sequence_consistent_prefix; assumption].
 Qed.
 Print Assumptions C08_any_sequence_stays_consistent.
+
+(** 3'. the same, started from the library's own check instead of the invariant *)
+Theorem C08_any_sequence_stays_consistent_from_is_consistent :
+  forall ops n k, Rep n -> is_consistent n = true -> guarded n ops ->
+    is_consistent (fold_left apply_op ops n) = true /\ is_consistent (fold_left apply_op (firstn k ops) n) = true.
+Proof.
+  intros ops n k R C G. pose proof (is_consistent_WF n R C) as W. split.
+  - apply WF_is_consistent. apply sequence_WF; assumption.
+  - apply sequence_consistent_prefix; assumption.
+Qed.
+Print Assumptions C08_any_sequence_stays_consistent_from_is_consistent.
+
+(** 3''. the three guards are NECESSARY: the code accepts each of these calls on a consistent
+    network and leaves a network that fails its own check (KNOWN FINDINGS of this property;
+    checks/C08.py runs these inputs on the implementation on every run):
+      - rename_tensor(-1, c) renames the virtual tensor away,
+      - transpose(axes) only checks that the axes are distinct, not that they are all axes,
+      - merge does not compare the dimensions of the joined axes. *)
+Definition guard_net : net :=
+  mkN [(0%Z, mkT 0%Z [2; 3; 2]%nat [0; 1; 2]%Z 0%Z); ((-1)%Z, mkT (-1)%Z [2; 3; 2]%nat [0; 1; 2]%Z (-1)%Z)]
+      [(0, mkB 0 [-1; 0]); (1, mkB 1 [-1; 0]); (2, mkB 2 [-1; 0])]%Z.
+
+Theorem C08_rename_of_virtual_tensor_refuted :
+  exists n c n', WF n /\ rename_tensor n VT c = Some n' /\ is_consistent n' = false.
+Proof.
+  exists guard_net, 5%Z. eexists. split; [apply wf_b_WF; vm_compute; reflexivity|].
+  split; [vm_compute; reflexivity | vm_compute; reflexivity].
+Qed.
+Print Assumptions C08_rename_of_virtual_tensor_refuted.
+
+Theorem C08_partial_transpose_refuted :
+  exists n axes n', WF n /\ transpose n axes = Some n' /\ is_consistent n' = false.
+Proof.
+  exists guard_net, [2%nat]. eexists. split; [apply wf_b_WF; vm_compute; reflexivity|].
+  split; [vm_compute; reflexivity | vm_compute; reflexivity].
+Qed.
+Print Assumptions C08_partial_transpose_refuted.
+
+Theorem C08_merge_of_unequal_dimensions_refuted :
+  exists n o joins ordT ordB n', WF n /\ WF o /\ merge n o joins ordT ordB = Some n' /\ is_consistent n' = false.
+Proof.
+  exists guard_net, guard_net, [(0, 1)]%nat, [0; -1]%Z, [0; 1; 2]%Z. eexists.
+  split; [apply wf_b_WF; vm_compute; reflexivity|]. split; [apply wf_b_WF; vm_compute; reflexivity|].
+  split; [vm_compute; reflexivity | vm_compute; reflexivity].
+Qed.
+Print Assumptions C08_merge_of_unequal_dimensions_refuted.
 
 (** 4. counts: unchanged by renames and transpositions; after a merge the tensors add up, the
     bonds add up minus the fused ones (at most one per join), and for joins that use every open
